@@ -400,7 +400,7 @@ CHECKS = {
                  "(a plan other than 'all', a bad query, or rows). Distinct = fingerprint of the spec."),
         "assumptions": ["system libsqlite3 (3.40.1) writes the databases"],
         "min_nontrivial": {"quick": 150, "thorough": 3000},
-        "required_classes": ["foreign-context-failed-queries", "empty-blob-scanned-into-byte-slice", "plan:all", "plan:close", "plan:cancel", "plan:cancel-async", "plan:corrupt", "plan:truncate", "plan:prepared", "plan:prepared-alter", "plan:nested", "plan:prepared-wal", "bad:table", "bad:column", "bad:not-select", "star=true", "rows<=1000"],
+        "required_classes": ["foreign-context-failed-queries", "empty-blob-scanned-into-byte-slice", "select:wildcard-before-a-column-called-star", "plan:all", "plan:close", "plan:cancel", "plan:cancel-async", "plan:corrupt", "plan:truncate", "plan:prepared", "plan:prepared-alter", "plan:nested", "plan:prepared-wal", "bad:table", "bad:column", "bad:not-select", "star=true", "rows<=1000"],
         "timeout": {"quick": 500, "thorough": 2400},
         "jobs": [
             job("driver", "c19", ["TestC19Driver"], 200, 3000, 3, 10, race=True),
